@@ -60,6 +60,8 @@ _install_enum_name()
 class complete(ContractBase):
     params = {'job': NODE, 'runid': Opt(INT), 'target': ATOM, 'timing': Ref('Timing'), 'status': STATE}
     modifies = ['Node.doing', 'Node.status', QUE, 'ghost.chronicle', 'dawgie.pl.schedule.err', 'dawgie.pl.schedule.suc']
+    # here the history is the ghost log of what is handed to chronicle.append (what append does with it: contracts/c18_chronicle.py)
+    externs = {'dawgie.pl.logger.chronicle.append': Extern(fn=_chronicle_append)}
     abstract = {'datetime.datetime.now(datetime.UTC)': None, '{k: str(v) for k, v in timing.items()}': Ref('Timing'),
                 "{'timing': timing, 'runid': runid, 'target': target, 'task': job.tag, 'changeset': dawgie.context.git_rev}": ATOM}
 
